@@ -39,3 +39,25 @@ Definition gauge_ok (c : gauge_case) : bool :=
   forallb (fun w => Z.eqb (gw_gauge_open w) (Z.of_nat (gw_open w)) && N.eqb (gw_total_seen w) (gw_total w) &&
                     N.eqb (gw_updates_seen w) (gw_updates w) && Z.eqb (gw_gauge_closed w) 0 && N.eqb (gw_total_after w) (gw_total w))
           (gc_waves c).
+
+(* C01 with ids reused across private and public updates. Three subscribers to topic t: anonymous, a token covering only
+   the alternate topic u, a token covering t. Streams identified by payloads, live and (Bolt) replayed from "earliest". *)
+Record priv_upd := { pu_payload : N; pu_private : bool; pu_alt : bool (* the update's topics are [t; u] rather than [t] *) }.
+Record priv_case := {
+  pv_pubs : list priv_upd;
+  pv_anon : list N; pv_partial : list N; pv_full : list N;
+  pv_replay : option (list N * list N * list N)
+}.
+Definition pv_expect (who : nat) (l : list priv_upd) : list N :=
+  map pu_payload (filter (fun u => match who with
+                                   | O => negb (pu_private u)
+                                   | 1%nat => negb (pu_private u) || pu_alt u
+                                   | _ => true
+                                   end) l).
+Definition priv_ok (c : priv_case) : bool :=
+  Ns_eqb (pv_anon c) (pv_expect 0 (pv_pubs c)) && Ns_eqb (pv_partial c) (pv_expect 1 (pv_pubs c)) &&
+  Ns_eqb (pv_full c) (pv_expect 2 (pv_pubs c)) &&
+  match pv_replay c with
+  | Some (a, p, f) => Ns_eqb a (pv_expect 0 (pv_pubs c)) && Ns_eqb p (pv_expect 1 (pv_pubs c)) && Ns_eqb f (pv_expect 2 (pv_pubs c))
+  | None => true
+  end.
